@@ -501,10 +501,26 @@ func (g *docgen) upcase() string {
 	return sb.String()
 }
 
+// twins: a second live lexer (plain and template mode) inside raw text, attributes, foreign content and template regions,
+// stepped between every call on the lexer under test and the use of its results (gen.Twin)
+const twinDoc = "<p Class=A b='c'>t</p><script>a</SCRIPx></script><svg A=\"1\"><g/></svg><textarea>x</TEXTAREA><a {{ x }}=y z={{ q }}>{{ if }}<style>s{{ .t }}</style>"
+
+var twinPlain = gen.Twin{New: func() func() bool {
+	l := html.NewLexer(parse.NewInputString(twinDoc))
+	return func() bool { tt, _ := l.Next(); _, _ = l.Text(), l.AttrVal(); return tt != html.ErrorToken }
+}}
+var twinTmpl = gen.Twin{New: func() func() bool {
+	l := html.NewTemplateLexer(parse.NewInputString(twinDoc), html.GoTemplate)
+	return func() bool { tt, _ := l.Next(); _, _ = l.Text(), l.AttrVal(); return tt != html.ErrorToken }
+}}
+
 func lex(l *html.Lexer, n int) []tok {
 	var out []tok
 	for i := 0; i <= n+2; i++ {
 		tt, data := l.Next()
+		twinPlain.Step()
+		twinTmpl.Step()
+		_ = l.Err() // polled after every call: reading the error state must not disturb the lexer
 		if tt == html.ErrorToken {
 			return out
 		}
@@ -605,6 +621,8 @@ func TestProp_Structure(t *testing.T) {
 				t.Fatalf("lexer does not terminate on %q", src)
 			}
 			tt, data := l.Next()
+			twinPlain.Step()
+			twinTmpl.Step()
 			if tt == html.ErrorToken {
 				break
 			}
